@@ -137,6 +137,7 @@ func generated(rng *lib.Rng) []Prog {
 	add("cmpsweep-hashes", eachLinePrefix+strings.Join(cmpLines, "\n"), "compare", "error-candidates")
 	add("hash-compare-opposite", `(def h1 (hash a:1 b:9 c:3 d:8 e:5 f:6)) (def h2 (hash a:9 b:1 c:8 d:3 e:6 f:5)) [(< h1 h2) (> h1 h2) (<= h1 h2) (>= h1 h2) (== h1 h2) (!= h1 h2) (< h2 h1) (== [h1] [h2])]`, "compare")
 	add("hash-compare-incomparable", `(def h1 (hash a:1 b:"s" c:3 d:[1] e:5)) (def h2 (hash a:2 b:7 c:4 d:"t" e:6)) (== h1 h2)`, "compare", "error-candidates")
+	add("field-uncomparable-keys", `(def f (field [car 1] 2)) (def g (field [car 1] 2 [cdr 2] 3 [(quote q) 7] 4 a:5)) [(str f) (str g)]`, "site:builders.go:valueStoredUnder")
 	add("record-unknown-field", `(snoopy nosuchfield:1 alsonot:2 third:3)`, "error-candidates")
 	add("record-unknown-fields-togo", `(def s (snoopy cry:"a")) (hset s (quote zzz) 1) (hset s (quote yyy) 2) (hset s (quote xxx) 3) (togo s)`, "site:jsonmsgp.go:SexpToGoStructs", "error-candidates")
 	add("record-no-method", `(_method (snoopy) NoSuchMethod:)`, "error-candidates", "both-after")
